@@ -12,7 +12,11 @@
  R5 every round updates the default flow exactly once; a flow's round_count grows by one per attributed round (C10.R2).
  R6 attribution at capacity: every trace of update_from_round consults the registry for a matching flow (register below the cap, lookup at
     the cap) and attributes the round to the flow found.
-Not decided: that positions line up with TTLs when failed probes are present (from_hops drops them).
+ R7 positions: the flow of a round has one entry per slot that occupied a time-to-live of its own — Complete ⇒ the responder's address, Awaited and
+    Failed ⇒ unknown — and none for NotSent / Skipped slots (a skipped slot's time-to-live is carried by the re-issued probe); the entries are the
+    slots of round.probes in order (no other adaptor than the optional cut at the round's length), and Flow::from_hops maps every item to one entry
+    (Some(a) ⇒ Known(a), None ⇒ Unknown). Otherwise a slot that failed to send shifts every later address one position down.
+Not decided: that position 0 is time-to-live 1 (with first-ttl > 1 every position is offset by the same constant).
 """
 import re
 
@@ -32,7 +36,8 @@ def run(chk, tier):
     prog = program(crates=('core',))
     chk.explanation = __doc__
     for r, d, fl in (('R1', 'registry grows only by push; entries change only through merge', 2), ('R2', 'ids dense from 1', 4), ('R3', 'check / merge / register tables', 11),
-                     ('R4', 'flow creation bounded by max_flows', 2), ('R5', 'default flow updated once per round', 1), ('R6', 'every round is looked up in the registry', 2)):
+                     ('R4', 'flow creation bounded by max_flows', 2), ('R5', 'default flow updated once per round', 1), ('R6', 'every round is looked up in the registry', 2),
+                     ('R7', 'one flow position per slot that occupied a time-to-live', 8)):
         chk.rule(r, d, floor=fl)
 
     # ---- R1 ---------------------------------------------------------------------------------------------
@@ -333,4 +338,61 @@ def run(chk, tier):
         chk.ok('R4', 'register-callers', callers)
     else:
         chk.fail('R4', 'register-callers', fn_loc(freg), 'FlowRegistry::register is called from %s: the max_flows guard can be bypassed' % callers, key='R4|register-callers')
-    chk.ok('R6', 'flow-construction', 'Flow::from_hops(round.probes …) — see R3 for matching', nontrivial=False)
+    chk.ok('R6', 'flow-construction', 'Flow::from_hops(round.probes …) — see R3 for matching and R7 for positions', nontrivial=False)
+
+    # ---- R7: which slots take a position in the flow of their round --------------------------------------
+    from .state_common import PS, CELLS
+    ADAPT = r'Iterator::(take|skip|filter|step_by|rev|take_while|skip_while|filter_map|map|zip|chain|enumerate|flat_map|flatten|map_while|scan|peekable|fuse|cycle|inspect)$'
+    chain_ok, chain_why, fm_cl = bool(outs), '', None
+    for o in outs:
+        if o.kind != 'return':
+            continue
+        fh_calls = user_calls(o, r'flows::Flow::from_hops$')
+        if len(fh_calls) != 1:
+            chain_ok, chain_why = False, 'Flow::from_hops is called %d times on a trace' % len(fh_calls)
+            continue
+        src = vshow(fh_calls[0][7][0])
+        ad = [short(c[1]).split('::')[-1] for c in user_calls(o, ADAPT)]
+        m = re.fullmatch(r'(?:call:Iterator::take\()?call:Iterator::filter_map\(call:(?:slice::iter|IntoIterator::into_iter|iter::into_iter)\(round\.probes\), closure:([\w:{}#]+)\)(?:, round\.largest_ttl\.0\))?', src)
+        if not m or sorted(ad) not in (['filter_map'], ['filter_map', 'take']):
+            chain_ok, chain_why = False, 'the flow of a round is built from %s (adaptors %s): expected the slots of round.probes in order, selected by one filter_map, optionally cut at round.largest_ttl' % (src[:140], ad)
+    cls = [c for c in prog.fns.values() if c.get('parent') == fu['path'] and c['kind'] == 'Closure']
+    if chain_ok and len(cls) == 1:
+        chk.ok('R7', 'chain', 'Flow::from_hops(round.probes.iter().filter_map(slot → position)[.take(round.largest_ttl)])')
+        ec = Engine(prog, inline_depth=1)
+        want = {'Complete': ['Option::Some(Option::Some(p.host))'], 'Awaited': ['Option::Some(Option::None)'], 'Failed': ['Option::Some(Option::None)'],
+                'NotSent': ['Option::None'], 'Skipped': ['Option::None']}
+        text = {'Option::Some(Option::None)': 'an unknown position', 'Option::None': 'no position'}
+        for cell in CELLS:
+            stc = St()
+            pay = [('sym', 'p')] if cell in ('Complete', 'Awaited', 'Failed') else []
+            co = ec.run(cls[0], [ec.sym_ref(stc, 'env'), ec.obj_ref(stc, ec.adt_val(PS, cell, pay))], stc)
+            got = sorted({vshow(o.value) if o.kind == 'return' else o.kind for o in co})
+            if got == want[cell]:
+                chk.ok('R7', 'slot:' + cell, got[0])
+            else:
+                chk.fail('R7', 'slot:' + cell, fn_loc(cls[0]), 'a %s slot contributes %s to the flow of its round; it must contribute %s%s' % (
+                    cell, [text.get(g, g) for g in got], text.get(want[cell][0], 'the address of its responder'),
+                    ' (the slot was sent with a time-to-live of its own: dropping it shifts every later address one position down, so the same path is '
+                    'recorded under a second flow or merged into a flow it contradicts)' if cell in ('Awaited', 'Failed', 'Complete') else ''), key='R7|slot|%s' % cell)
+    else:
+        chk.fail('R7', 'chain', fn_loc(fu), 'State::update_from_round: %s' % (chain_why or 'expected one selecting closure, found %d' % len(cls)), key='R7|chain')
+    fh = prog.find(r'flows::Flow::from_hops$')
+    chk.fn_seen(fh['path'])
+    eh = Engine(prog, inline_depth=0)
+    sth = St()
+    oh = eh.run(fh, [('sym', 'hops')], sth)
+    hcl = [c for c in prog.fns.values() if c.get('parent') == fh['path'] and c['kind'] == 'Closure']
+    if len(oh) == 1 and oh[0].kind == 'return' and len(hcl) == 1 and re.fullmatch(r'Flow\(call:Iterator::collect\(call:Iterator::map\(call:IntoIterator::into_iter\(hops\), closure:[\w:{}#]+\)\)\)', vshow(oh[0].value)):
+        chk.ok('R7', 'from_hops:chain', 'entries = hops.into_iter().map(item → entry).collect(): one entry per item, in order')
+        e1h = Engine(prog, inline_depth=1)
+        for nm, val, wv in (('Some', e1h.adt_val('core::option::Option', 'Some', [('sym', 'a')]), 'FlowEntry::Known(a)'), ('None', e1h.adt_val('core::option::Option', 'None', []), 'FlowEntry::Unknown')):
+            sti = St()
+            ci = e1h.run(hcl[0], [e1h.sym_ref(sti, 'env'), val], sti)
+            got = sorted({vshow(o.value) if o.kind == 'return' else o.kind for o in ci})
+            if got == [wv]:
+                chk.ok('R7', 'from_hops:' + nm, wv)
+            else:
+                chk.fail('R7', 'from_hops:' + nm, fn_loc(hcl[0]), 'Flow::from_hops maps %s to %s, expected %s' % (nm, got, wv), key='R7|from_hops|%s' % nm)
+    else:
+        chk.fail('R7', 'from_hops:chain', fn_loc(fh), 'Flow::from_hops is not `hops.into_iter().map(..).collect()` (%s): an item may be dropped, duplicated or reordered' % [vshow(o.value)[:120] for o in oh][:2], key='R7|from_hops|chain')
